@@ -1,5 +1,178 @@
-import Capella.Model.Geom
+import Capella.Lemmas.GeomSnap
+import Capella.Lemmas.GeomTranslate
+import Capella.Lemmas.GeomView
+
+/-!
+# C17 — parsed diagrams are geometrically sound and independent of absolute position
+
+Property theorems about the geometry kernel (`Capella.Geom`, exact over `Rat`); helper lemmas live in
+`Capella/Lemmas/Geom*.lean`. The aird parser that composes these functions is *not* modelled (it is
+covered by the metamorphic run of `harness/props/c17.py`), so C17 as a whole is partial.
+
+A `Box` carries its `port` flag, so every `∀ b : Box` ranges over ports and non-ports.
+-/
 namespace Capella.Props.C17
 open Capella.Geom
-theorem placeholder : closestaxis ⟨0, 0⟩ = ⟨1, 0⟩ := by decide
+
+/-- Snapping never fails: for every proper box (positive width and height), every point, every source and
+every routing style, port or not, `Box.vector_snap` returns a point — none of the Python assertions
+(`doesn't have a direction`, `doesn't intersect`, `intersects multiple`, `closestaxis returned (0,0)`) and
+no escaping `ValueError("Lines are parallel")` is reachable. -/
+theorem snap_total (b : Box) (p s : V2) (st : Style) (hw : 0 < b.size.x) (hh : 0 < b.size.y) :
+    ∃ q, vectorSnap b p s st = .ok q := by
+  by_cases h : st = .tree
+  · subst h; exact ⟨_, rfl⟩
+  · obtain ⟨q, hq, _⟩ := vectorSnap_spec b p s st hw hh h
+    exact ⟨q, hq⟩
+
+/-- Oblique (including the closest-side snap used when `point == source` or no source is given) and
+Manhattan snapping return a point on the outline of the box, for every box, point and approach direction. -/
+theorem snap_on_outline (b : Box) (p s q : V2) (st : Style) (hw : 0 < b.size.x) (hh : 0 < b.size.y)
+    (hst : st ≠ .tree) (hq : vectorSnap b p s st = .ok q) : onOutline b q := by
+  obtain ⟨q', hq', ho⟩ := vectorSnap_spec b p s st hw hh hst
+  rw [hq] at hq'
+  cases hq'
+  exact ho
+
+/-- The full statement for tree routing — "a point on the top or bottom side, for every box, point and
+approach direction" — which the code does *not* satisfy. -/
+def tree_snap_on_side_full : Prop :=
+  ∀ (b : Box) (p s q : V2), 0 < b.size.x → 0 < b.size.y →
+    vectorSnap b p s .tree = .ok q → onTopOrBottom b q
+
+/-- Witness 1: `point.x` outside the box's x-range is kept
+(`Box((0,0),(1,1)).vector_snap((-1,-1), source=(-1,0), style=TREE) = (-1, 1)`). -/
+theorem tree_snap_on_side_full_fails : ¬ tree_snap_on_side_full := by
+  intro h
+  have := h ⟨⟨0, 0⟩, ⟨1, 1⟩, false⟩ ⟨-1, -1⟩ ⟨-1, 0⟩ ⟨-1, 1⟩ (by decide +kernel) (by decide +kernel) (by decide +kernel)
+  revert this
+  decide +kernel
+
+/-- Witness 2: `point == source` returns `point ∓ (1, 0)`, even for a point inside the box's x-range
+(`Box((0,0),(4,4)).vector_snap((1,2), source=(1,2), style=TREE) = (2, 2)`). -/
+theorem tree_snap_point_eq_source_fails :
+    ¬ ∀ (b : Box) (p q : V2), 0 < b.size.x → 0 < b.size.y → b.pos.x ≤ p.x → p.x ≤ b.pos.x + b.size.x →
+      vectorSnap b p p .tree = .ok q → onTopOrBottom b q := by
+  intro h
+  have := h ⟨⟨0, 0⟩, ⟨4, 4⟩, false⟩ ⟨1, 2⟩ ⟨2, 2⟩ (by decide +kernel) (by decide +kernel) (by decide +kernel) (by decide +kernel) (by decide +kernel)
+  revert this
+  decide +kernel
+
+/-- What does hold for tree routing: with `point ≠ source`, the result is on the top or bottom *side* of the
+box whenever the box is a port or `point.x` lies within the box's x-range (exactly the excluded inputs of
+the two witnesses above). -/
+theorem tree_snap_top_or_bottom_partial (b : Box) (p s q : V2) (hw : 0 < b.size.x)
+    (hne : p ≠ s) (hx : b.port = true ∨ (b.pos.x ≤ p.x ∧ p.x ≤ b.pos.x + b.size.x))
+    (hq : vectorSnap b p s .tree = .ok q) : onTopOrBottom b q := by
+  have hd : p - s ≠ ⟨0, 0⟩ := fun h => hne ((sub_eq_zero_iff p s).mp h)
+  simp only [vectorSnap] at hq
+  cases hq
+  exact snapTree_side b p (p - s) (le_of_lt hw) hd hx
+
+/-- … and then it is a point of the outline. -/
+theorem tree_snap_on_outline_partial (b : Box) (p s q : V2) (hw : 0 < b.size.x) (hh : 0 < b.size.y)
+    (hne : p ≠ s) (hx : b.port = true ∨ (b.pos.x ≤ p.x ∧ p.x ≤ b.pos.x + b.size.x))
+    (hq : vectorSnap b p s .tree = .ok q) : onOutline b q :=
+  onOutline_of_onTopOrBottom b q (le_of_lt hh) (tree_snap_top_or_bottom_partial b p s q hw hne hx hq)
+
+/-- Without the x-range condition the result is still on the top or the bottom *line* of the box and keeps
+`point.x` (non-port) resp. sits at the middle of the side (port). -/
+theorem tree_snap_on_line (b : Box) (p s q : V2) (hne : p ≠ s) (hq : vectorSnap b p s .tree = .ok q) :
+    (q.y = b.pos.y ∨ q.y = b.pos.y + b.size.y) ∧
+    q.x = (if b.port then b.pos.x + b.size.x / 2 else p.x) := by
+  have hd : p - s ≠ ⟨0, 0⟩ := fun h => hne ((sub_eq_zero_iff p s).mp h)
+  simp only [vectorSnap] at hq
+  cases hq
+  exact ⟨snapTree_line b p (p - s) hd, snapTree_x b p (p - s) hd⟩
+
+/-- `Box.snap_to_parent` for a port: if the port is at least as large as the overhang and the parent is large
+enough for the "mid box" to have positive width and height, snapping succeeds, the port's centre lies on the
+outline of the mid box, and the port rectangle is attached to the parent's border (it meets the parent and
+is not inside its open interior). -/
+theorem port_on_border (parent child : Box) (overhang : Rat) (h0 : 0 ≤ overhang)
+    (hsx : overhang ≤ child.size.x) (hsy : overhang ≤ child.size.y)
+    (hx : child.size.x < parent.size.x + 2 * overhang) (hy : child.size.y < parent.size.y + 2 * overhang) :
+    ∃ pos', snapPort parent child overhang = .ok pos' ∧ portAttached parent pos' child.size ∧
+      onOutline (midBox parent child overhang) (pos' + child.size.sdiv 2) :=
+  snapPort_spec parent child overhang h0 hsx hsy hx hy
+
+/-- `Box.snap_to_parent` for a child: the parent's margin is kept on the top and left, and in every
+direction in which the child keeps a positive size it does not reach into the margin on the far side. -/
+theorem child_keeps_margin (parent child : Box) (raw : V2) (m : Rat) :
+    let r := snapChild parent child raw m
+    parent.pos.x + m ≤ r.1.x ∧ parent.pos.y + m ≤ r.1.y ∧
+    (0 < r.2.x → r.1.x + r.2.x ≤ parent.pos.x + parent.size.x - m) ∧
+    (0 < r.2.y → r.1.y + r.2.y ≤ parent.pos.y + parent.size.y - m) :=
+  snapChild_spec parent child raw m
+
+/-- `Diagram.calculate_viewport`: for any list of element bounds, the viewport encloses every one of them … -/
+theorem viewport_encloses (bounds : List Rect) (v : Rect) (h : viewport bounds = some v) :
+    ∀ r ∈ bounds, v.encloses r :=
+  ((viewport_fold_spec bounds none v h).2).1
+
+/-- … it is the least such rectangle … -/
+theorem viewport_least (bounds : List Rect) (v c : Rect) (h : viewport bounds = some v)
+    (hc : ∀ r ∈ bounds, c.encloses r) : c.encloses v :=
+  ((viewport_fold_spec bounds none v h).2).2 c (fun _ ha => nomatch ha) hc
+
+/-- … and it exists as soon as there is one visible element. -/
+theorem viewport_defined (bounds : List Rect) (h : bounds ≠ []) : ∃ v, viewport bounds = some v :=
+  viewport_some bounds h
+
+/-- `Box.bounds` encloses the box and each of its floating labels; `Edge.bounds` every point and label. -/
+theorem bounds_enclose (b : Box) (labels elabels : List Box) (p0 : V2) (points : List V2) :
+    ((boxBounds b labels).encloses (Rect.ofBox b) ∧ ∀ l ∈ labels, (boxBounds b labels).encloses (Rect.ofBox l)) ∧
+    ((∀ p ∈ p0 :: points, (edgeBounds elabels p0 points).encloses (Rect.ofPoint p)) ∧
+      ∀ l ∈ elabels, (edgeBounds elabels p0 points).encloses (Rect.ofBox l)) :=
+  ⟨boxBounds_encloses b labels, edgeBounds_encloses elabels p0 points⟩
+
+/-- Position independence of snapping: moving the box, the point and the source by the same vector moves the
+result by exactly that vector — for every style, port or not, including the error outcomes. -/
+theorem translate_equivariant_snap (b : Box) (p s v : V2) (st : Style) :
+    vectorSnap (b.translate v) (p + v) (s + v) st = (vectorSnap b p s st).map (· + v) :=
+  vectorSnap_translate b p s v st
+
+/-- … of `line_intersect` … -/
+theorem translate_equivariant_intersect (p1 p2 p3 p4 v : V2) :
+    lineIntersect (p1 + v) (p2 + v) (p3 + v) (p4 + v) = (lineIntersect p1 p2 p3 p4).map (· + v) :=
+  lineIntersect_translate p1 p2 p3 p4 v
+
+/-- … of the viewport computation … -/
+theorem translate_equivariant_viewport (bounds : List Rect) (v : V2) :
+    viewport (bounds.map (·.translate v)) = (viewport bounds).map (·.translate v) :=
+  viewport_translate bounds v
+
+/-- … and of the soundness predicate itself: being on the outline does not depend on where the box is. -/
+theorem on_outline_translate (b : Box) (q v : V2) : onOutline (b.translate v) (q + v) ↔ onOutline b q :=
+  onOutline_translate b q v
+
+/-! ## Non-vacuity -/
+
+-- the call that used to fail `assert len(intersections) < 2` (edge aimed at a corner)
+example : vectorSnap ⟨⟨0, 0⟩, ⟨10, 10⟩, false⟩ ⟨5, 5⟩ ⟨-5, -5⟩ .oblique = .ok ⟨0, 0⟩ := by decide +kernel
+-- the call that used to fail `assert direction.x or direction.y` (source in the centre, point outside)
+example : vectorSnap ⟨⟨0, 0⟩, ⟨2, 2⟩, false⟩ ⟨-1, -1⟩ ⟨1, 1⟩ .oblique = .ok ⟨0, 0⟩ := by decide +kernel
+-- an ordinary oblique snap with a non-integer answer, and the closest snap on a diagonal (far corner)
+example : vectorSnap ⟨⟨0, 0⟩, ⟨4, 2⟩, false⟩ ⟨2, 1⟩ ⟨5, 5⟩ .oblique = .ok ⟨11/4, 2⟩ := by decide +kernel
+example : vectorSnap ⟨⟨0, 0⟩, ⟨4, 2⟩, false⟩ ⟨6, -1⟩ ⟨6, -1⟩ .oblique = .ok ⟨0, 2⟩ := by decide +kernel
+-- Manhattan: port and non-port differ
+example : vectorSnap ⟨⟨0, 0⟩, ⟨4, 2⟩, false⟩ ⟨3, 1/2⟩ ⟨9, 1⟩ .manhattan = .ok ⟨4, 1/2⟩ := by decide +kernel
+example : vectorSnap ⟨⟨0, 0⟩, ⟨4, 2⟩, true⟩ ⟨3, 1/2⟩ ⟨9, 1⟩ .manhattan = .ok ⟨4, 1⟩ := by decide +kernel
+-- tree: hypotheses of the partial theorem are satisfiable, and its conclusion is not trivial
+example : vectorSnap ⟨⟨0, 0⟩, ⟨4, 2⟩, false⟩ ⟨1, 5⟩ ⟨1, 9⟩ .tree = .ok ⟨1, 2⟩ := by decide +kernel
+example : onTopOrBottom ⟨⟨0, 0⟩, ⟨4, 2⟩, false⟩ ⟨1, 2⟩ ∧ ¬ onTopOrBottom ⟨⟨0, 0⟩, ⟨4, 2⟩, false⟩ ⟨5, 2⟩ := by decide +kernel
+-- the outline predicate separates: corner yes, interior no, outside no
+example : onOutline ⟨⟨0, 0⟩, ⟨4, 2⟩, false⟩ ⟨4, 2⟩ ∧ ¬ onOutline ⟨⟨0, 0⟩, ⟨4, 2⟩, false⟩ ⟨1, 1⟩ ∧
+    ¬ onOutline ⟨⟨0, 0⟩, ⟨4, 2⟩, false⟩ ⟨5, 2⟩ := by decide +kernel
+-- a 10x10 port dropped inside a 100x50 parent ends 2 px over the nearest border
+example : snapPort ⟨⟨0, 0⟩, ⟨100, 50⟩, false⟩ ⟨⟨80, 20⟩, ⟨10, 10⟩, true⟩ 2 = .ok ⟨92, 20⟩ := by decide +kernel
+example : portAttached ⟨⟨0, 0⟩, ⟨100, 50⟩, false⟩ ⟨92, 20⟩ ⟨10, 10⟩ ∧
+    ¬ portAttached ⟨⟨0, 0⟩, ⟨100, 50⟩, false⟩ ⟨80, 20⟩ ⟨10, 10⟩ := by
+  constructor <;> simp [portAttached] <;> norm_num
+-- viewport of two rectangles
+example : viewport [⟨0, 0, 2, 2⟩, ⟨-1, 1, 1, 5⟩] = some ⟨-1, 0, 2, 5⟩ := by decide +kernel
+-- translation really moves things
+example : vectorSnap ((⟨⟨0, 0⟩, ⟨10, 10⟩, false⟩ : Box).translate ⟨-100, 7⟩) (⟨5, 5⟩ + ⟨-100, 7⟩) (⟨-5, -5⟩ + ⟨-100, 7⟩) .oblique
+    = .ok ⟨-100, 7⟩ := by decide +kernel
+
 end Capella.Props.C17
